@@ -236,3 +236,34 @@ fn as_variable_id(
     }
     Ok(id)
 }
+
+/// Verification-only read access to the private fields of [`Instance`] (feature `verif`, hook H2).
+#[cfg(feature = "verif")]
+pub struct VerifParts<'a> {
+    pub sense: Sense,
+    pub objective: &'a Function,
+    pub decision_variables: &'a HashMap<VariableID, DecisionVariable>,
+    pub constraints: &'a HashMap<ConstraintID, Constraint>,
+    pub removed_constraints: &'a HashMap<ConstraintID, RemovedConstraint>,
+    pub decision_variable_dependency: &'a HashMap<VariableID, Function>,
+    pub parameters: &'a Option<v1::Parameters>,
+    pub description: &'a Option<v1::instance::Description>,
+    pub constraint_hints: &'a ConstraintHints,
+}
+
+#[cfg(feature = "verif")]
+impl Instance {
+    pub fn verif_parts(&self) -> VerifParts<'_> {
+        VerifParts {
+            sense: self.sense,
+            objective: &self.objective,
+            decision_variables: &self.decision_variables,
+            constraints: &self.constraints,
+            removed_constraints: &self.removed_constraints,
+            decision_variable_dependency: &self.decision_variable_dependency,
+            parameters: &self.parameters,
+            description: &self.description,
+            constraint_hints: &self.constraint_hints,
+        }
+    }
+}
